@@ -171,6 +171,9 @@ func c03(r *Report) {
 	}
 
 	r.Guard("C03.R1", "an upstream failure is turned into a 502 with a Warning that passes through the response modifier", func() {
+		if wf := r.Use("proxyutil", "Warning"); wf != nil {
+			warningQuoted(r, wf)
+		}
 		rts := plainCalls(handle, "(*M.Proxy).roundTrip")
 		if len(rts) == 0 && r.W.Fn("", "Proxy.roundTrip") == nil {
 			// the helper has been inlined: the upstream contact is the transport call itself
